@@ -5,5 +5,5 @@ CONSTANTS
   Menu <- FullMenu
   InitTrees <- Trees
   Mutant = "terminal_check_unlocked"
-INVARIANTS Refines PrefixFreeAbs NoRace Exclusive
+INVARIANTS Refines PrefixFreeAbs NoRace Exclusive NoPhantom
 PROPERTIES Terminates
